@@ -81,7 +81,7 @@ m = {
   {"name": "verus", "path": "tools/vverus.py", "serves_properties": ["C09", "C10", "C12", "C13", "C15", "C16", "C18"], "kind_free_text": "Verus 0.2026.09.13: functions extracted verbatim from /repo each run with requires/ensures spliced in; lemma layer over the contract vocabulary"},
  ],
  "checks": checks,
- "notes": "exit 0 = every obligation discharged (known findings print KNOWN-FINDING); exit 1 = VIOLATION (replay file under replays/); exit 2 = undecided (lost anchor, timeout, harness no longer compiles) - never an alarm. Fix commits in /repo: 4c4db61 (F1), e528503 (F3), 7a28cc6 (F2), faf428a (F4); see known_findings.json.",
+ "notes": "exit 0 = every obligation discharged (known findings print KNOWN-FINDING); exit 1 = VIOLATION (replay file under replays/); exit 2 = undecided (lost anchor, timeout, harness no longer compiles) - never an alarm. Fix commits in /repo: 4c4db61 (F1), e528503 (F3), 7a28cc6 (F2), faf428a (F4), e11552a (F5); see known_findings.json.",
  "not_applicable": [{"property_id": k, "reason": v} for k, v in sorted(NA.items())],
 }
 open(os.path.join(os.path.dirname(__file__), "..", "MANIFEST.json"), "w").write(json.dumps(m, indent=1) + "\n")
